@@ -224,7 +224,7 @@ func sumName(diff bool) string {
 
 func init() {
 	defProp("C08",
-		"rapid-generated pattern polygons (3-10 vertices, convex stars or arbitrary, either orientation, extent 3 .. 2^27) x paths of 1-8 points (duplicates, collinear continuations) x closed/open x sum/diff; oracle built from the definition: the swept region is the union of the parallelograms (path edge) + (pattern edge) (pattern negated for diff; closing edge only when closed), membership by exact winding per parallelogram; probes farther than 2.001 from every parallelogram edge must agree with the result's winding (which must be 0 or 1); closed paths: sum(A,B) vs sum(B,A) at probes clear of both edge sets; result canonical; non-trivial = probes inside and outside, and a non-convex pattern / open path with >= 2 segments / closed path",
+		"rapid-generated pattern polygons (3-10 vertices, convex stars or arbitrary, either orientation, extent 3 .. 2^27, 2^33, 2^40) x paths of 1-8 points (duplicates, collinear continuations, edges parallel to a pattern edge; rarely a wandering path of 190-580 points giving more than 1024 parallelograms) x closed/open x sum/diff; oracle built from the definition: the swept region is the union of the parallelograms (path edge) + (pattern edge) (pattern negated for diff; closing edge only when closed), membership by exact winding per parallelogram; probes farther than 2.001 from every parallelogram edge must agree with the result's winding (which must be 0 or 1); closed paths: sum(A,B) vs sum(B,A) at probes clear of both edge sets; result canonical; non-trivial = probes inside and outside, and a non-convex pattern / open path with >= 2 segments / closed path",
 		[]string{"coordinates stay below 2^28 so every sum is in range"},
 		drawC08, judgeC08)
 }
